@@ -282,6 +282,13 @@ impl Fiber {
     if let FiberState::Blocked = self.state {
       self.state = FiberState::Pending;
     }
+
+    // a resumed fiber no longer waits on any channel. A waiter left
+    // behind would resume it again for an operation it has moved past
+    let waiter = self.waiter;
+    for channel in self.channels.iter_mut() {
+      channel.remove_waiter(waiter);
+    }
   }
 
   /// Activate this fiber
